@@ -17,6 +17,12 @@ for d in sorted(glob.glob(os.path.join(root, "seeded", "*"))):
     p = os.path.join(tmp, "seeded-" + os.path.basename(d) + ".patch")
     open(p, "w").write("# property: %s\n# expect: detect\n" % pid + open(os.path.join(d, "patch.diff")).read())
     patches.append(p)
+# behaviour-preserving refactorings collected for this property (must stay silent under this property's check)
+for b in sorted(glob.glob(os.path.join(root, "benign", pid + "-ben*.patch"))):
+    p = os.path.join(tmp, "benign-" + os.path.basename(b))
+    body = "".join(l for l in open(b) if not l.startswith("# property:"))
+    open(p, "w").write("# property: %s\n" % pid + body)
+    patches.append(p)
 stats = dict(seeded=0, detected=0, benign=0, silent=0, skipped=0, mismatches=[])
 if patches:
     out = subprocess.run([os.path.join(root, "selftest")] + patches, capture_output=True, text=True).stdout
